@@ -40,6 +40,7 @@ type c08Shape struct {
 	First  []int   `json:"first"`
 	ILast  []int   `json:"ilast"`
 	RFirst int     `json:"rfirst"`
+	Parent []int   `json:"parent"`
 	RT     bool    `json:"rt"`
 	Next   []int   `json:"next"`
 	Prev   []int   `json:"prev"`
@@ -96,7 +97,7 @@ func (s c08Shape) key() string {
 	case "fun":
 		return fmt.Sprintf("%s n=%d succ=%v", s.Rel, s.N, s.Succ)
 	case "outline":
-		return fmt.Sprintf("outline n=%d titled-root=%v root.First=%d root.Last=%d First=%v Last=%v Next=%v Prev=%v (0 none, %d root)", s.N, s.RT, s.RFirst, s.Last, s.First, s.ILast, s.Next, s.Prev, s.N+1)
+		return fmt.Sprintf("outline n=%d titled-root=%v root.First=%d root.Last=%d Parent=%v First=%v Last=%v Next=%v Prev=%v (0 none, %d root)", s.N, s.RT, s.RFirst, s.Last, s.Parent, s.First, s.ILast, s.Next, s.Prev, s.N+1)
 	case "depth":
 		return fmt.Sprintf("%s depth=%d", s.Rel, s.Depth)
 	case "mut":
@@ -206,8 +207,14 @@ func (e *c08Env) input(s c08Shape) (data []byte, what string, ok bool) {
 		return buildOutline(outlineShape{n: s.N, last: tr(s.Last), rfirst: tr(s.RFirst), rt: s.RT,
 			first: func(i int) int { return tr(s.First[i-1]) },
 			ilast: func(i int) int { return tr(s.ILast[i-1]) },
-			next:  func(i int) int { return tr(s.Next[i-1]) },
-			prev:  func(i int) int { return tr(s.Prev[i-1]) }}), "", true
+			parent: func(i int) int {
+				if i-1 < len(s.Parent) {
+					return tr(s.Parent[i-1])
+				}
+				return tRoot
+			},
+			next: func(i int) int { return tr(s.Next[i-1]) },
+			prev: func(i int) int { return tr(s.Prev[i-1]) }}), "", true
 	case "depth":
 		switch s.Rel {
 		case "array", "dict", "mixed", "parens", "contentarray", "contentq", "contentdict":
@@ -601,6 +608,8 @@ func c08Child() {
 		ops := pops
 		if c.Shape.Fam == "mut" {
 			ops = mutOps(c.Shape.Target)
+		} else if opsMode == "validate" { // experiments only
+			ops = pops[2:4]
 		} else if opsMode == "core" && (c.Shape.Fam == "graph" || c.Shape.Fam == "fun" || c.Shape.Fam == "outline" || c.Shape.Fam == "depth") {
 			ops = selectOps(pops, c.Shape)
 			if len(data) > 256<<10 {
